@@ -23,6 +23,56 @@ EXPLANATION = (
 RULE = "one obligation per (env class, comparison literal with a stated boundary); violation = comparison strict where equality is feasible, or threshold shifted to the strict side"
 
 
+def depot_part(s, sign=+1):
+    """(node, sign) of the padding (depot) column of a mask expression: first item of the cat, or the value stored at column 0"""
+    s = nf.strip(s, bool_ctx=True)
+    if s.op in ("inv", "not"):
+        return depot_part(s.args[0], -sign)
+    fn = nf._fn(s)
+    if fn in ("torch.cat", "torch.concat") and len(s.args) >= 2:
+        items = nf._seq_items(s.args[1])
+        if items and len(items) >= 2:
+            return items[0], sign
+    if s.op == "store":
+        idx = s.args[1]
+        items = idx.args if idx.op == "tuple" else (idx,)
+        if items and vg.is_const(items[-1], 0) and not isinstance(items[-1].args[0], bool):
+            return s.args[2], sign
+        return depot_part(s.args[0], sign)
+    if s.op == "meth" and s.args[1] in ("squeeze", "unsqueeze", "to", "clone"):
+        return depot_part(s.args[0], sign)
+    return None
+
+
+def depot_open_away_from_depot(ctx: Ctx, env: EnvA, sl, root):
+    """C05.c the documented pruning concerns depot -> depot moves only: whenever the vehicle is NOT at the depot (and, in SVRP,
+    the technician is not the last one) the depot column is open, whatever the customers' state is -- three-valued evaluation
+    of the depot column under `current_node == 0` := False."""
+    dp = depot_part(root)
+    if dp is None:
+        return
+    node, sign = dp
+
+    def assume(n):
+        c = nf.cmpnf(n)
+        if c is None:
+            return None
+        cells = vg.cells_of(n)
+        if cells == {"current_node"} and c[1] in ("==0", "!=0"):
+            return c[1] == "!=0"
+        if "current_tech" in cells and c[1] in ("==0", "!=0"):
+            return c[1] == "!=0"          # not the last technician
+        return None
+    v = nf.kleene(node, assume, sign)
+    ctx.ob("C05.c", f"{env.name}.mask:depot-open-away-from-the-depot", v is True, sl.where,
+           "with the vehicle away from the depot the depot column evaluates to open for every state of the customers" if v is True else
+           f"with the vehicle away from the depot the depot column evaluates to {v}: returning to the depot is hidden in states where the problem allows it "
+           "(only the pointless depot -> depot move may be pruned)", construct=f"{sl.fi.qualname}:depot-open-away-from-depot")
+
+
+DEPOT_PRUNING_ENVS = ("CVRPEnv", "SDVRPEnv", "SVRPEnv", "MTVRPEnv")
+
+
 def extra_rules(ctx: Ctx, env: EnvA, sl, root, lits, bool_cells):
     """C05.b every conjunctive constraint literal of the mask instantiates a literal of the
     reference row (the mask imposes nothing beyond the problem definition);
@@ -45,6 +95,10 @@ def extra_rules(ctx: Ctx, env: EnvA, sl, root, lits, bool_cells):
         if not lit.alt:
             continue
         good, elsewhere, rev = find_literal(leaves, lit)
+        if lit.optional and not good and not elsewhere:
+            # a pruning that is not applied at all hides nothing
+            ctx.ob("C05.c", f"{env.name}.mask:alternative:{lit.name}", True, sl.where, f"optional pruning '{lit.name}' is not applied", construct=f"{sl.fi.qualname}:{lit.name}:alternative-missing")
+            continue
         ctx.ob("C05.c", f"{env.name}.mask:alternative:{lit.name}", bool(good), sl.where,
                (f"admitting alternative '{lit.name}' present: {show_leaf(good[0])}" if good else
                 f"admitting alternative '{lit.name}' is missing from the mask: actions it should offer are hidden. {lit.why}"),
@@ -57,6 +111,17 @@ def run(ctx: Ctx):
         sl, root = mask_root(env, family)
         ctx.fn(sl.fi)
         check_literals(ctx, "C05", env, sl, root, T.MASK[cname], "mask", "tighter")
+        if cname == "SVRPEnv":
+            # the documented pruning covers *pointless* moves.  In SVRP depot -> depot is the hand-over to the next technician:
+            # closing the depot because the vehicle stands at the depot forbids `this technician stays idle`, which can be optimal
+            lv = [l for l in nf.boolwalk(root, T.BOOL_CELLS) if l.cmp() is not None and l.cmp()[1] in ("==0", "!=0") and vg.cells_of(l.node) == {"current_node"}]
+            ctx.ob("C05.c", "SVRPEnv.mask:technician-hand-over-not-pruned", not lv, sl.where,
+                   "the depot column does not depend on `the vehicle is at the depot`" if not lv else
+                   f"the depot is closed while {vg.show(lv[0].node, 3)} (and a servable customer exists): the CVRP pruning of depot -> depot moves, but in SVRP that move "
+                   "sends out the next technician -- a cheaper, less skilled technician can never be left idle, so feasible (and possibly optimal) solutions are not offered",
+                   construct="SVRPEnv.get_action_mask:depot-handover-pruned")
+        if cname in DEPOT_PRUNING_ENVS:
+            depot_open_away_from_depot(ctx, env, sl, root)
         if cname != "MDCPDPEnv":
             extra_rules(ctx, env, sl, root, T.MASK[cname], T.BOOL_CELLS)
         else:
